@@ -325,6 +325,7 @@ Section Oracle.
     if ws_closed s then OErr EOther
     else match read_header hdrdec (w_maxh (ws_opts s)) (ws_view s) with
          | Ok (roots, _, _, _) => OKeys roots
+         | Err EHeaderTooLarge => OErr EHeaderTooLarge   (* wrapped with %w: still recognisable *)
          | Err _ => OErr EOther
          end.
 End Oracle.
